@@ -102,8 +102,24 @@ class NamespaceMapper(MutableMapping[str, str]):
         return self.namespaces[prefix]
 
     def __setitem__(self, prefix: str, uri: str) -> None:
+        self._unbind_prefix(prefix, uri)
         self.namespaces[prefix] = uri
         self._reverse[uri] = prefix and prefix + ':'
+
+    def _unbind_prefix(self, prefix: str, uri: str) -> None:
+        """
+        Called before a prefix is bound to a different namespace: the reverse entry
+        of the namespace it was bound to must not keep pointing to that prefix.
+        """
+        old_uri = self.namespaces.get(prefix)
+        if old_uri is None or old_uri == uri:
+            return
+        elif self._reverse.get(old_uri) == (prefix and prefix + ':'):
+            del self._reverse[old_uri]
+            for k in reversed(self.namespaces.keys()):
+                if k != prefix and self.namespaces[k] == old_uri:
+                    self._reverse[old_uri] = k and k + ':'
+                    break
 
     def __delitem__(self, prefix: str) -> None:
         uri = self.namespaces.pop(prefix)
@@ -224,7 +240,9 @@ class NamespaceMapper(MutableMapping[str, str]):
                     {k: v for k, v in self._reverse.items()},
                 )
                 self._xmlns_contexts.append(context)
-                self.namespaces.update(xmlns)
+                for k, v in xmlns:
+                    self._unbind_prefix(k, v)
+                    self.namespaces[k] = v
                 if level:
                     self._reverse.update((v, k and k + ':') for k, v in xmlns)
                 else:
